@@ -591,31 +591,97 @@ def check_attr_length_form(prog, r):
 
 
 def check_as4_reconcile(prog, r):
-    """RFC 6793 section 4.2.3 on receipt from an OLD speaker: AS4_PATH (and AS4_AGGREGATOR) are ignored only when *both*
-    AGGREGATOR and AS4_AGGREGATOR are present and AGGREGATOR's AS is not AS_TRANS; AS4_AGGREGATOR replaces AGGREGATOR only
-    when AGGREGATOR carries AS_TRANS."""
+    """RFC 6793 section 4.2.3 on receipt from an OLD speaker: AS4_PATH is merged into AS_PATH unless *both* AGGREGATOR and
+    AS4_AGGREGATOR are present and AGGREGATOR's AS is not AS_TRANS.  Decided on the decision table of reconcile_as4 (all
+    entry->return paths with constant flags propagated), so it does not matter whether the code uses a flag, nested ifs or
+    early returns: on every path where AS4_PATH and AS_PATH are present, the merge (as_path_reconcile) is skipped iff the
+    three conditions hold."""
+    from ..paths import enumerate_paths, PathLimit
     ks = prog.find(r"rustybgp_packet::bgp::PeerCodec::reconcile_as4")
     if len(ks) != 1:
         r.unanalysable("PeerCodec::reconcile_as4 anchor matched %d" % len(ks))
         return
     fv = view(prog, ks[0])
     r.analysed(fv.name)
-    brs = branches(fv)
-    ls = [l for l, nm in fv.local_name.items() if nm == "ignore_as4_path"]
-    sets = [bi for l in ls for bi, si, s in fv.defs().get(l, []) if bi in fv.live and si != "t" and s["rv"]["r"] == "use" and (s["rv"]["o"].get("k") or {}).get("v") == 1]
-    if not sets:
-        r.unanalysable("reconcile_as4: no `ignore_as4_path = true` assignment", fv.loc())
+    rend = Renderer(fv, depth=12, through_names=True)
+    CODES = {2: "AS_PATH", 7: "AGGREGATOR", 17: "AS4_PATH", 18: "AS4_AGGREGATOR"}
+
+    def closure_code(expr):
+        """Attribute code tested by the closure(s) of an Iterator::position(...) inside `expr`."""
+        for x in walk(expr):
+            if isinstance(x, tuple) and x and x[0] == "call" and x[1].endswith("Iterator::position"):
+                for y in walk(x):
+                    ck = None
+                    if isinstance(y, tuple) and y and y[0] == "call" and y[1].startswith("closure::"):
+                        ck = y[1][len("closure::"):]
+                    if isinstance(y, tuple) and y and y[0] == "agg" and y[1] == "closure":
+                        ck = y[2]
+                    if ck and ck in prog.ix:
+                        cv = view(prog, ck)
+                        for bb in cv.live:
+                            for st in cv.blocks[bb]["s"]:
+                                rv = st.get("rv")
+                                if rv and rv["r"] == "bin" and rv["op"] in ("Eq", "Ne"):
+                                    for o in (rv["a"], rv["b"]):
+                                        v = (o.get("k") or {}).get("v")
+                                        if v in CODES:
+                                            return CODES[v]
+        return None
+
+    def atom(br, labels):
+        e = br.expr
+        if e[0] == "discr" and labels <= {"Some", "None"} and len(labels) == 1:
+            c = closure_code(e)
+            if c:
+                return ("present:" + c, labels == frozenset({"Some"}))
+        if e[0] == "call" and re.search(r"Option::<T>::is_(some|none)$", e[1]) and labels <= {"true", "false"} and len(labels) == 1:
+            c = closure_code(e)
+            if c:
+                return ("present:" + c, (labels == frozenset({"true"})) == e[1].endswith("is_some"))
+        if e[0] == "bin" and e[1] in ("Eq", "Ne") and any(c.endswith("aggregator_asn") for c in expr_calls(e)) and len(labels) == 1 and labels <= {"true", "false"}:
+            other = e[3] if any(c.endswith("aggregator_asn") for c in expr_calls(e[2])) else e[2]
+            vals = [x[1] for x in walk(other) if isinstance(x, tuple) and x and x[0] == "const" and isinstance(x[1], int)]
+            if 23456 in vals:
+                is_eq = (e[1] == "Eq") == (labels == frozenset({"true"}))
+                return ("agg_is_trans", is_eq)
+        return None
+
+    try:
+        paths = enumerate_paths(fv, rend)
+    except PathLimit:
+        r.unanalysable("reconcile_as4: too many paths", fv.loc())
         return
-    for bi in sets:
-        gs = flat_guards(fv, bi, brs)
-        have_as4agg = any(g[0] == "discr" and "as4_aggregator" in expr_vars(g) and l == {"Some"} for g, l, h in gs)
-        have_agg = any(g[0] == "discr" and l == {"Some"} and any(c.endswith("Iterator::position") for c in expr_calls(g)) for g, l, h in gs)
-        not_trans = any(g[0] == "bin" and g[1] in ("Eq", "Ne") and any(c.endswith("aggregator_asn") for c in expr_calls(g)) and ((g[1] == "Eq") == (l == {"false"})) for g, l, h in gs)
-        miss = [n for n, ok in (("AS4_AGGREGATOR present", have_as4agg), ("AGGREGATOR present", have_agg), ("AGGREGATOR's AS is not AS_TRANS", not_trans)) if not ok]
-        if miss:
-            r.fail(fv.name, "as4-ignore-condition", "AS4_PATH is ignored without the condition(s): %s — a wide AS_PATH from an OLD speaker is then left with AS_TRANS placeholders" % "; ".join(miss), fv.loc(bi))
-        else:
-            r.ok("reconcile_as4: AS4_PATH ignored only if AGGREGATOR and AS4_AGGREGATOR are present and AGGREGATOR's AS is not AS_TRANS")
+    merge_blocks = {b for b, t in fv.calls(re.compile(r".*Attribute::as_path_reconcile$"))}
+    if not merge_blocks or not paths:
+        r.unanalysable("reconcile_as4: no call of Attribute::as_path_reconcile / no path", fv.loc())
+        return
+    bad_skip, bad_merge, n = [], [], 0
+    for conds, blocks in paths:
+        env = {}
+        for br, labels in conds:
+            a = atom(br, labels)
+            if a:
+                env.setdefault(a[0], a[1])
+        if env.get("present:AS4_PATH") is False or env.get("present:AS_PATH") is False:
+            continue        # nothing to merge on this path (a presence that was never tested counts as possible)
+        n += 1
+        merged = bool(merge_blocks & set(blocks))
+        untrusted = env.get("present:AS4_AGGREGATOR") is True and env.get("present:AGGREGATOR") is True and env.get("agg_is_trans") is False
+        if not merged and not untrusted:
+            bad_skip.append(sorted((k, v) for k, v in env.items()))
+        if merged and untrusted:
+            bad_merge.append(sorted((k, v) for k, v in env.items()))
+    if n == 0:
+        r.unanalysable("reconcile_as4: no path with AS4_PATH and AS_PATH present was recognised", fv.loc())
+        return
+    if bad_skip:
+        r.fail(fv.name, "as4-ignore-condition", "AS4_PATH is ignored on a path without all of: AS4_AGGREGATOR present, AGGREGATOR present, AGGREGATOR's AS is not AS_TRANS (%s) — a wide AS_PATH "
+               "from an OLD speaker is then left with AS_TRANS placeholders" % bad_skip[0], fv.loc(sorted(merge_blocks)[0]))
+    if bad_merge:
+        r.fail(fv.name, "as4-merged-although-untrusted", "AS4_PATH is merged although AGGREGATOR and AS4_AGGREGATOR are present and AGGREGATOR's AS is not AS_TRANS (RFC 6793 4.2.3 says both "
+               "AS4 attributes are ignored then)", fv.loc(sorted(merge_blocks)[0]))
+    if not bad_skip and not bad_merge:
+        r.ok("reconcile_as4: over %d paths with AS4_PATH and AS_PATH present, the merge is skipped iff AGGREGATOR and AS4_AGGREGATOR are present and AGGREGATOR's AS is not AS_TRANS" % n)
 
 
 def check_flowspec_len(prog, r):
